@@ -87,6 +87,27 @@ def check_group(ex, key, recs, rnd, rep, stats):
 
 
 def random_ratio_cases(ex, tier, seed, rep, stats):
+    # machine type of the ratio: every integral ratio as int / numpy integer against the same ratio as float
+    stats['typed_ratio_rules'] = 0
+    for ratio in (2.0, 3.0, 4.0, 10.0, 16.0, 100.0):
+        for step in (1, 2, 3, 4):
+            for order in range(1, 9):
+                for numterms in range(1, 6):
+                    name = 'ratio=%r/step=%d/order=%d/num_terms=%d' % (ratio, step, order, numterms)
+                    with np.errstate(all='ignore'):
+                        ref = np.asarray(ex.Richardson(step_ratio=ratio, step=step, order=order, num_terms=numterms).rule())
+                    for typ in (int, np.int64, np.int32):
+                        try:
+                            with np.errstate(all='ignore'):
+                                ri = np.asarray(ex.Richardson(step_ratio=typ(ratio), step=step, order=order, num_terms=numterms).rule())
+                            ok_int = ri.shape == ref.shape and np.allclose(ri, ref, rtol=1e-9, atol=1e-12)
+                        except Exception as ex_:
+                            ok_int, ri = False, repr(ex_)
+                        stats['typed_ratio_rules'] += 1
+                        if not ok_int:
+                            rep.violation('int-ratio:sweep', dict(case=name, ratio_type=typ.__name__, got=repr(ri)[:200], want=ref.tolist()),
+                                          '%s: step_ratio given as %s gives %s, as float %s' % (name, typ.__name__, repr(ri)[:120], ref.tolist()))
+                            break
     rnd = random.Random(seed)
     n = 150 if tier == 'quick' else 1500
     for c in range(n):
@@ -108,6 +129,19 @@ def random_ratio_cases(ex, tier, seed, rep, stats):
         if len(rule) != nt + 1:
             rep.violation('rule-length:random', dict(case=name, got=len(rule)), '%s: %d weights, specification %d' % (name, len(rule), nt + 1))
             continue
+        if not isinstance(ratio, complex) and ratio == int(ratio):
+            # the ratio is a real number: its machine type (Python int, numpy integers) is not part of the configuration
+            for typ in (int, np.int64, np.int32):
+                try:
+                    with np.errstate(all='ignore'):
+                        ri = np.asarray(ex.Richardson(step_ratio=typ(ratio), step=step, order=order, num_terms=numterms).rule(S))
+                    ok_int = ri.shape == rule.shape and np.allclose(ri, rule, rtol=1e-9, atol=1e-12)
+                except Exception as ex_:
+                    ok_int, ri = False, repr(ex_)
+                if not ok_int:
+                    rep.violation('int-ratio:random', dict(case=name, ratio_type=typ.__name__, got=repr(ri)[:200], want=rule.tolist()),
+                                  '%s: step_ratio given as %s gives %s, as float %s' % (name, typ.__name__, repr(ri)[:120], rule.tolist()))
+                    break
         # defining equations of RichardsonX on the floating-point weights
         tj = [ratio ** (-(order + step * j)) for j in range(nt)]
         V = np.array([[1.0] + [t ** i for t in tj] for i in range(nt + 1)], dtype=complex)
